@@ -5,14 +5,20 @@ import common
 import enc
 import winlib
 from tracecheck import TraceCheck, parse_behaviours
-from p_c02 import frow, srow, PLAIN, RED, ONBLUE
+from p_c02 import frow, srow, PLAIN, RED, ONBLUE, UNDER, INVERT
 
 
 def lines_for(w):
+    # rows are at most as wide as the terminal (the statement quantifies over heights only)
+    return [r for r in _lines_for(w) if sum(len(t) for t, _ in r["v"]) <= w]
+
+
+def _lines_for(w):
     a = [97]
     return [frow([]), frow([[a, PLAIN]]), frow([[a, RED]]), frow([[[98] * w, RED]]), frow([[[99] * w, PLAIN]]),
             frow([[a, PLAIN], [[100] * (w - 1), ONBLUE]]) if w > 1 else frow([[a, ONBLUE]]), srow("e"), frow([[[], RED]]),
-            frow([[[102] * max(1, w - 1), PLAIN]])]
+            frow([[[102] * max(1, w - 1), PLAIN]]),
+            frow([[a, PLAIN], [[32] * max(1, w - 1), UNDER]]), frow([[[32] * w, ONBLUE]]), frow([[[32] * max(1, w - 1), INVERT]])]
 
 
 class C07(TraceCheck):
@@ -71,8 +77,24 @@ class C07(TraceCheck):
                         yield {"h": h, "w": w, "hide": n % 2, "keep": (n // 2) % 2, "pre": pre,
                                "steps": [{"arr": A, "cp": [max(0, len(A) - 1), 0], "kind": "list"},
                                          {"arr": B, "cp": [0, 0], "kind": "fsarray" if n % 5 == 0 else "list"}]}
+        # REPL-like growth: every render shows the previous array plus a few more lines (so earlier rows are row-cache
+        # hits), the cursor stays in the same column on the last row; the window starts below existing output
+        base_pool = lines_for(6)
+        for h in (3, 4, 6):
+            for pre in range(0, h + 1):
+                for start in (1, 2, h - 1):
+                    for grow in ((1, 1), (1, 2), (2, 1, 3)):
+                        for col in (0, 2):
+                            n += 1
+                            lines = [base_pool[(n + j * 5) % len(base_pool)] for j in range(start + sum(grow))]
+                            steps = []
+                            k = start
+                            for g in (0,) + grow:
+                                k += g
+                                steps.append({"arr": lines[:k], "cp": [k - 1, col], "kind": "list"})
+                            yield {"h": h, "w": 6, "hide": n % 2, "keep": (n // 2) % 2, "pre": pre, "steps": steps}
         for k in range(900 if tier == "quick" else 12000):
-            h, w = rng.randrange(1, 8), rng.randrange(1, 8)
+            h, w = rng.randrange(1, 8), rng.choice([1, 2, 3, 4, 5, 6, 7, 8, 9, 10, 12])
             L = lines_for(w)
             steps = []
             for _ in range(rng.randrange(1, 7)):
